@@ -256,6 +256,24 @@ def generate():
         raise Unsupported("PhaseSpace::setSize call")
     setsize_args = arg_names(setsize[0]["inner"][1:])
 
+    # creation of the results file: arguments as source text
+    import re
+    with open(cxxast.REPO + "/" + SRC) as fh:
+        flat = re.sub(r"\s+", "", fh.read())
+    mm = re.findall(r"hdf_file=newHDF5File\(((?:[^()]|\([^()]*\))*)\);", flat)
+    if len(mm) != 1:
+        raise Unsupported("creation of the results file: %d matches" % len(mm))
+    h5_ctor_args, depth, cur = [], 0, ""
+    for ch in mm[0]:
+        if ch == "," and depth == 0:
+            h5_ctor_args.append(cur)
+            cur = ""
+        else:
+            depth += ch == "("
+            depth -= ch == ")"
+            cur += ch
+    h5_ctor_args.append(cur)
+
     out = ["/- GENERATED by translator/gen_physics.py from %s (sha256 %s).\n   Do not edit: overwritten by every check run. -/"
            % (SRC, source_hash(SRC)),
            "import InovesaModel.Model.Scalar\nset_option linter.unusedVariables false\nnamespace Inovesa.Gen.Phys\nopen Inovesa\n",
@@ -289,7 +307,9 @@ def generate():
             "/-- arguments with which main() creates the phase space: fresh start, start from a results file; PhaseSpace::setSize -/",
             "def gridCtorArgs : List String := [%s]" % ", ".join('"%s"' % a for a in grid_args),
             "def h5StartArgs : List String := [%s]" % ", ".join('"%s"' % a for a in h5_args),
-            "def setSizeArgs : List String := [%s]\n" % ", ".join('"%s"' % a for a in setsize_args),
+            "def setSizeArgs : List String := [%s]" % ", ".join('"%s"' % a for a in setsize_args),
+            "/-- arguments with which main() creates the results file (file name, grid, field for the CSR records, impedance, number of tracked particles, …) -/",
+            "def h5FileCtorArgs : List String := [%s]\n" % ", ".join('"%s"' % a for a in h5_ctor_args),
             "end Inovesa.Gen.Phys"]
     return "\n".join(out) + "\n"
 
